@@ -125,6 +125,9 @@ pub struct Outcome {
     pub printed: Option<String>,
 }
 
+/// set by `single` for a scenario marked "cold"
+pub static COLD_PROCESS: std::sync::atomic::AtomicBool = std::sync::atomic::AtomicBool::new(false);
+
 fn run_program(text: &str, stdout_canon: bool) -> Outcome {
     let mut sim_os = os::SimOs::new();
     // module files for programs that import (the module sees the importer's scope)
@@ -133,7 +136,10 @@ fn run_program(text: &str, stdout_canon: bool) -> Outcome {
     sim_os.nodes.insert("modu".into(), os::Node::File(b"pick := (k: bool) -> int|string|float { if k { return 1 } return \"s\" }; both := [pick(true), pick(false)]".to_vec()));
     os::install(sim_os);
     let mut out = Outcome::default();
-    let interp = Interpreter::with_stdlib();
+    // in a cold process a program that never mentions `std` is parsed by a host that never loaded
+    // the standard library (whatever the library's lazy statics would have initialised is then
+    // initialised by the program itself, in the middle of its own parse)
+    let interp = if COLD_PROCESS.load(std::sync::atomic::Ordering::Relaxed) && !text.contains("std") { Interpreter::without_stdlib() } else { Interpreter::with_stdlib() };
     let parsed = guarded(|| Code::parse(&interp, text));
     out.events += 1;
     match parsed {
@@ -983,6 +989,8 @@ pub fn single(input: &Value) -> Value {
     // starts with (lazy statics are then initialised by the run itself, under its own hash keys)
     if input["cold"].as_bool() != Some(true) {
         crate::boot::boot(boot_seed);
+    } else {
+        COLD_PROCESS.store(true, std::sync::atomic::Ordering::Relaxed);
     }
     let subject = Subject::from_json(&input["subject"]);
     let prefix: Vec<String> = input["prefix"].as_array().map(|a| a.iter().map(|x| x.as_str().unwrap().to_string()).collect()).unwrap_or_default();
